@@ -1,5 +1,7 @@
 import GenReal.Oem
 import Proofs.Lemmas.Oem
+import Proofs.Lemmas.OemSpectrum
+import Proofs.Lemmas.OemLimits
 import Proofs.Audit
 import Mathlib.LinearAlgebra.Matrix.PosDef
 import Mathlib.Tactic
@@ -17,7 +19,7 @@ positive definite, hence invertible (`IsUnit det`), so no theorem rests on the j
 `A⁻¹ = 0` of a singular `A` — where `scipy.linalg.inv` raises.
 -/
 
-open Matrix TM
+open Matrix TM Filter Topology
 
 variable {m n : ℕ}
 
@@ -161,5 +163,117 @@ theorem C17_noise_linear (K : Matrix (Fin m) (Fin n) ℝ) (Sa : Matrix (Fin n) (
   · simp only [nf_noise, Matrix.mulVec_add]
   · simp only [nf_noise, Matrix.mulVec_smul]
 
+/-! ## Eigenvalues of the averaging kernel lie in `[0, 1)` -/
+
+/-- Every complex eigenvalue `μ` of the (real) averaging kernel — eigenvector `z ≠ 0` of `A` read
+as a complex matrix — is real with `0 ≤ μ < 1`. -/
+theorem C17_A_eigenvalues (K : Matrix (Fin m) (Fin n) ℝ) {Sa : Matrix (Fin n) (Fin n) ℝ}
+    {Sy : Matrix (Fin m) (Fin m) ℝ} (ha : Sa.PosDef) (hy : Sy.PosDef)
+    (μ : ℂ) (z : Fin n → ℂ) (hz : z ≠ 0)
+    (h : ((averaging_kernel_matrix K Sa Sy).map Complex.ofReal) *ᵥ z = μ • z) :
+    μ.im = 0 ∧ 0 ≤ μ.re ∧ μ.re < 1 := by
+  rw [nf_A] at h
+  exact Oem.eig_complex K ha hy μ z hz h
+
+/-- real eigenvalues (the special case of a real eigenvector): `A v = μ v`, `v ≠ 0` ⇒ `0 ≤ μ < 1` -/
+theorem C17_A_eigenvalues_real (K : Matrix (Fin m) (Fin n) ℝ) {Sa : Matrix (Fin n) (Fin n) ℝ}
+    {Sy : Matrix (Fin m) (Fin m) ℝ} (ha : Sa.PosDef) (hy : Sy.PosDef)
+    (μ : ℝ) (v : Fin n → ℝ) (hv : v ≠ 0) (h : averaging_kernel_matrix K Sa Sy *ᵥ v = μ • v) :
+    0 ≤ μ ∧ μ < 1 := by
+  rw [nf_A] at h
+  have := Oem.eig_real_form K ha hy v 0 μ 0 (Or.inl hv) (by simpa using h) (by simp)
+  exact this.2
+
+/-! ## Limits -/
+
+/-- vanishing measurement noise (`Sy` scaled by `ε → 0⁺`), `K` of full column rank: `A → 1` -/
+theorem C17_A_tendsto_one_noise (K : Matrix (Fin m) (Fin n) ℝ) {Sa : Matrix (Fin n) (Fin n) ℝ}
+    {Sy : Matrix (Fin m) (Fin m) ℝ} (ha : Sa.PosDef) (hy : Sy.PosDef)
+    (hK : Function.Injective K.mulVec) :
+    Tendsto (fun ε : ℝ => averaging_kernel_matrix K Sa (ε • Sy)) (𝓝[>] 0) (𝓝 1) := by
+  simp only [nf_A]
+  exact Oem.tendsto_A_noise_zero K ha hy hK
+
+/-- vanishing prior variance (`Sa` scaled by `ε → 0⁺`), ANY `K`: `A → 0` -/
+theorem C17_A_tendsto_zero_prior (K : Matrix (Fin m) (Fin n) ℝ) {Sa : Matrix (Fin n) (Fin n) ℝ}
+    {Sy : Matrix (Fin m) (Fin m) ℝ} (ha : Sa.PosDef) (hy : Sy.PosDef) :
+    Tendsto (fun ε : ℝ => averaging_kernel_matrix K (ε • Sa) Sy) (𝓝[>] 0) (𝓝 0) := by
+  simp only [nf_A]
+  exact Oem.tendsto_A_prior_zero K ha hy
+
+/-! ## Zero Jacobian: nothing is learnt -/
+
+/-- `K = 0` (allowed by every theorem above): `S = Sa`, `G = 0`, `A = 0`. -/
+theorem C17_zero_K {Sa : Matrix (Fin n) (Fin n) ℝ} (Sy : Matrix (Fin m) (Fin m) ℝ)
+    (ha : Sa.PosDef) :
+    error_covariance_matrix (0 : Matrix (Fin m) (Fin n) ℝ) Sa Sy = Sa ∧
+    retrieval_gain_matrix (0 : Matrix (Fin m) (Fin n) ℝ) Sa Sy = 0 ∧
+    averaging_kernel_matrix (0 : Matrix (Fin m) (Fin n) ℝ) Sa Sy = 0 := by
+  refine ⟨?_, ?_, ?_⟩
+  · rw [nf_S, Matrix.mul_zero, zero_add, Matrix.nonsing_inv_nonsing_inv Sa (Oem.PosDef.det_isUnit ha)]
+  · rw [nf_G, Matrix.transpose_zero, Matrix.mul_zero, Matrix.zero_mul]
+  · rw [nf_A, Matrix.mul_zero]
+
+/-! ## Non-vacuity: the hypotheses are satisfiable, the definitions compute what they should -/
+
+/-- positive definite matrices of every size exist (identity, diagonal, correlated) -/
+example : (1 : Matrix (Fin n) (Fin n) ℝ).PosDef := Matrix.PosDef.one
+example : (Matrix.diagonal ![(2 : ℝ), 3]).PosDef :=
+  Matrix.PosDef.diagonal (by intro i; fin_cases i <;> norm_num)
+/-- a correlated 2×2 covariance `[[3,1],[1,2]] = B Bᵀ + 1` -/
+example : (!![(3 : ℝ), 1; 1, 2] : Matrix (Fin 2) (Fin 2) ℝ).PosDef := by
+  have h : (!![(3 : ℝ), 1; 1, 2] : Matrix (Fin 2) (Fin 2) ℝ)
+      = (!![(1 : ℝ), 1; 1, 0])ᴴ * !![(1 : ℝ), 1; 1, 0] + 1 := by
+    ext i j; fin_cases i <;> fin_cases j <;>
+      simp [Matrix.mul_apply, Fin.sum_univ_two, Matrix.one_apply] <;> norm_num
+  rw [h]
+  exact Matrix.PosDef.posSemidef_add (Matrix.posSemidef_conjTranspose_mul_self _) Matrix.PosDef.one
+/-- a Jacobian of full column rank exists (hypothesis of `C17_A_tendsto_one_noise`) -/
+example : Function.Injective (1 : Matrix (Fin 2) (Fin 2) ℝ).mulVec := by
+  intro u v h; simpa using h
+
+private theorem inv11 (a : ℝ) (ha : a ≠ 0) :
+    (!![a] : Matrix (Fin 1) (Fin 1) ℝ)⁻¹ = !![a⁻¹] := by
+  apply Matrix.inv_eq_right_inv
+  ext i j; fin_cases i; fin_cases j
+  simp [Matrix.mul_apply, ha]
+
+/-- 1×1 instance `K = 2, Sa = 1, Sy = 4`: `S = 1/2`, `G = 1/4`, `A = 1/2 = 1 − S Sa⁻¹` -/
+example : error_covariance_matrix !![(2 : ℝ)] !![(1 : ℝ)] !![(4 : ℝ)] = !![(1 / 2 : ℝ)] ∧
+    retrieval_gain_matrix !![(2 : ℝ)] !![(1 : ℝ)] !![(4 : ℝ)] = !![(1 / 4 : ℝ)] ∧
+    averaging_kernel_matrix !![(2 : ℝ)] !![(1 : ℝ)] !![(4 : ℝ)] = !![(1 / 2 : ℝ)] := by
+  have hM : (!![(2 : ℝ)])ᵀ * (!![(4 : ℝ)])⁻¹ * !![(2 : ℝ)] + (!![(1 : ℝ)])⁻¹ = !![(2 : ℝ)] := by
+    rw [inv11 4 (by norm_num), inv11 1 (by norm_num)]
+    ext i j; fin_cases i; fin_cases j
+    simp [Matrix.mul_apply]; norm_num
+  refine ⟨?_, ?_, ?_⟩
+  · rw [nf_S, hM, inv11 2 (by norm_num)]; norm_num
+  · rw [nf_G, hM, inv11 2 (by norm_num), inv11 4 (by norm_num)]
+    ext i j; fin_cases i; fin_cases j
+    simp [Matrix.mul_apply, Matrix.vecMul, dotProduct, Matrix.transpose_apply] <;> norm_num
+  · rw [nf_A, hM, inv11 2 (by norm_num), inv11 4 (by norm_num)]
+    ext i j; fin_cases i; fin_cases j
+    simp [Matrix.mul_apply, Matrix.vecMul, dotProduct, Matrix.transpose_apply] <;> norm_num
+
+/-- 2×2 under-determined instance (`m = 1 < n = 2`, `K = [1 0]`, `Sa = Sy = 1`): the hypotheses of
+all theorems hold and `A` has the eigenvalues `1/2` and `0` — inside `[0, 1)`. -/
+example : (1 : Matrix (Fin 2) (Fin 2) ℝ).PosDef ∧ (1 : Matrix (Fin 1) (Fin 1) ℝ).PosDef ∧
+    averaging_kernel_matrix !![(1 : ℝ), 0] (1 : Matrix (Fin 2) (Fin 2) ℝ) (1 : Matrix (Fin 1) (Fin 1) ℝ)
+      = !![(1 / 2 : ℝ), 0; 0, 0] := by
+  refine ⟨Matrix.PosDef.one, Matrix.PosDef.one, ?_⟩
+  simp only [nf_A, inv_one, Matrix.mul_one]
+  have hM : (!![(1 : ℝ), 0] : Matrix (Fin 1) (Fin 2) ℝ)ᵀ * !![(1 : ℝ), 0] + 1
+      = Matrix.diagonal ![(2 : ℝ), 1] := by
+    ext i j; fin_cases i <;> fin_cases j <;> simp [Matrix.mul_apply, Matrix.one_apply] <;> norm_num
+  have hinv : (Matrix.diagonal ![(2 : ℝ), 1])⁻¹ = Matrix.diagonal ![(1 / 2 : ℝ), 1] := by
+    apply Matrix.inv_eq_right_inv
+    rw [Matrix.diagonal_mul_diagonal]
+    ext i j; fin_cases i <;> fin_cases j <;> simp [Matrix.diagonal, Matrix.one_apply]
+  rw [hM, hinv]
+  ext i j; fin_cases i <;> fin_cases j <;>
+    simp [Matrix.mul_apply, Fin.sum_univ_two, Matrix.diagonal, Matrix.vecMul, dotProduct,
+      Matrix.transpose_apply] <;> norm_num
+
 assert_axioms C17_S_def C17_S_posdef C17_S_le_Sa C17_gain_n_form C17_gain_m_form C17_A_eq_GK
-  C17_A_eq_one_sub C17_smoothing_linear C17_noise_linear
+  C17_A_eq_one_sub C17_smoothing_linear C17_noise_linear C17_A_eigenvalues C17_A_eigenvalues_real
+  C17_A_tendsto_one_noise C17_A_tendsto_zero_prior C17_zero_K
